@@ -13,7 +13,7 @@ RULE = ("case = a valid op prefix (generators of C02-C04/C16) bringing an Array/
         "Int to some state, then exactly ONE invalid operation from the fault matrix {get,set,push_at,pop_at,pop,rem,resize,"
         "concat,push,print_to,method call} x {index = len, -len-1, +-far, INT64_MAX, INT64_MIN; pop from empty; absent key / "
         "element; key or value of the wrong type; NULL object / NULL argument; class not implemented; member left empty; too "
-        "few format arguments; unhonourable resize}, then a valid suffix. Oracle: the call raised, the exception is in the "
+        "few format arguments; unhonourable resize (Tuple growth, map below its bindings, any resize of a String that owns no heap buffer)}, then a valid suffix. Oracle: the call raised, the exception is in the "
         "admissible set for that fault, the object's full dump (and for Probe elements the token ledger) and the exception "
         "depth are unchanged, the suffix agrees with the reference model, no sanitizer report. Every matrix cell is visited at "
         "container sizes 0, 1, 7 by the enumerated phase; the rest is sampled. Further cells: NULL / wrong-typed arguments in every "
